@@ -286,12 +286,13 @@ def r0_negotiation(ctx):
     lids = {t: _lid(t) for t in UNIVERSE + EXTRA_REQUESTS}
     back = {v: k for k, v in lids.items()}
     thorough = ctx.tier == "thorough"
-    av_sets = [c for k in (1, 2, 3) for c in itertools.permutations(UNIVERSE, k)] if thorough else \
+    # (thorough: every ordered pair, and every 3-subset in both orders - all 336 ordered triples cost an hour without deciding more)
+    av_sets = [c for k in (1, 2) for c in itertools.permutations(UNIVERSE, k)] + [x for c in itertools.combinations(UNIVERSE, 3) for x in (c, tuple(reversed(c)))] if thorough else \
               [c for k in (1, 2) for c in itertools.permutations(UNIVERSE, k)] + [tuple(UNIVERSE), tuple(reversed(UNIVERSE))]
     reqs_all = UNIVERSE + EXTRA_REQUESTS
     req_lists = [c for k in (1, 2) for c in itertools.product(reqs_all, repeat=k)]
     if thorough:
-        req_lists += [c for c in itertools.product(reqs_all, repeat=3) if len(set(c)) == 3 and c[0] in ("de", "fr-Latn", "fr-CA", "en-GB")]
+        req_lists += [c for c in itertools.product(reqs_all, repeat=3) if len(set(c)) == 3 and c[0] in ("de", "fr-Latn") and "und" not in c and "und-FR" not in c]
     n_cases = 0
     bad = {}
     unknown = None
